@@ -5,7 +5,7 @@ code — not only along the trajectories its own scenario happens to take. A dif
 correspondence (reported with no-failing-input-found unless the property's own checker also found a failing input)."""
 import random
 
-from . import c11, c12, c15, instgen, lib, netobs, opsfam
+from . import c11, c12, c15, f32corr, instgen, lib, netobs, opsfam
 
 # which models each property's theorems depend on
 CONES = {
@@ -15,9 +15,13 @@ CONES = {
     "C16": ("ops", "neigh", "tour", "trans"), "C06": ("ops", "neigh", "tour", "trans"),
     "C08": ("ops", "neigh"), "C11": ("ops", "tour", "trans"),
     "C09": ("tour", "trans"), "C10": ("tour", "trans"), "C13": ("tour",),
+    "C14": ("f32",),
 }
-SIZES = {"quick": {"ops": 48, "neigh": 30, "tour": 32, "trans": 40},
-         "thorough": {"ops": 600, "neigh": 300, "tour": 400, "trans": 500}}
+# SlotDist.v / F32.v are in the cone of the theorems cited for the start solution (C02 track clause, C06 no panic, C14)
+for _p in ("C02", "C06"):
+    CONES[_p] = CONES[_p] + ("f32", "slots")
+SIZES = {"quick": {"ops": 48, "neigh": 30, "tour": 32, "trans": 40, "f32": 3000, "slots": 40},
+         "thorough": {"ops": 600, "neigh": 300, "tour": 400, "trans": 500, "f32": 60000, "slots": 1500}}
 
 
 def _ops(d, rng, seed, n):
@@ -29,8 +33,30 @@ def _ops(d, rng, seed, n):
     return [(r["inst"], r["model_diff"]) for r in rs if r.get("model_diff")], len(rs)
 
 
+def slot_profile(rng):
+    return {"slots": "many", "ntypes": rng.choice([2, 3, 3, 4]), "maxdist": rng.choice(["small", "mid", "large", "zero", "absent"]),
+            "depots": rng.choice(["ample", "absent"])}
+
+
+def _f32(d, rng, seed, n, pid):
+    r = f32corr.run(pid, rng, n, "f32cone")
+    return [({"f32": True, "seed": seed}, x) for x in r["diffs"]], r["ops"]
+
+
+def _slots(d, rng, seed, n):
+    gen = [instgen.gen_instance(rng, slot_profile(rng)) for _ in range(n)]
+    rs = [r for r in lib.pmap(f32corr.slots_case, [(d, 90000 + k, inst) for k, inst in enumerate(gen)]) if not r.get("skipped")]
+    return [({"instance": r["inst"]}, r["diff"]) for r in rs if r.get("diff")], len(rs)
+
+
 def replay_one(fam, case, d):
     """re-runs one stored cone case (check.py <ID> --replay <cone replay>)"""
+    if fam == "f32":
+        r = f32corr.run("C14", random.Random(case.get("seed", 1)), 3000, "f32replay")
+        return [(case, x) for x in r["diffs"]]
+    if fam == "slots":
+        r = f32corr.slots_case((d, 99005, case["instance"]))
+        return [(case, r["diff"])] if r.get("diff") else []
     if fam == "ops":
         r = opsfam.run_ops(d, 99001, case["instance"], case["ops"])
         return [(case, r["model_diff"])] if r.get("model_diff") else []
@@ -111,6 +137,10 @@ def cone_correspondence(pid, tier, seed, d):
             ds, m = _ops(d, rng, seed, n)
         elif fam == "neigh":
             ds, m = _neigh(d, rng, seed, n)
+        elif fam == "f32":
+            ds, m = _f32(d, rng, seed, n, pid)
+        elif fam == "slots":
+            ds, m = _slots(d, rng, seed, n)
         else:
             ds, m = _lines(d, rng, seed, n, fam)
         counts[fam] = m
@@ -118,7 +148,9 @@ def cone_correspondence(pid, tier, seed, d):
     return diffs, counts
 
 
-NAMES = {"ops": "Schedule.v vs schedule.rs / schedule/modifications.rs (operation histories)",
+NAMES = {"f32": "F32.v (hand-written binary32: u64 as f32, /, +, partial_cmp) vs the hardware operations (bit patterns)",
+         "slots": "SlotDist.v vs MinCostFlowSolver::distribute_maintenance_slots (SLOT lines of the hook)",
+         "ops": "Schedule.v vs schedule.rs / schedule/modifications.rs (operation histories)",
          "neigh": "Swaps.v / SwapsRot.v vs local_search/neighborhood (walks)",
          "tour": "Tour.v vs tour.rs / tour/modifications.rs (tour operations)",
          "trans": "Transition.v / TOpt.v vs transition*.rs, transition_local_search, transition_cycle_tsp"}
